@@ -243,6 +243,19 @@ pub fn build<Data: GarnishData>(parse_root: usize, parse_tree: Vec<ParseNode>, d
                 Err(CompilerError::new_message(format!("Parse nodes do not form a tree, max iterations reached at node {}", node_index)))?;
             }
 
+            if parse_node.get_definition() == Definition::ElseJump {
+                // an else belongs to the conditional (or chain of them) written on its left,
+                // with anything else there both sides would be left behind as values
+                let left_is_conditional = parse_node
+                    .get_left()
+                    .and_then(|left| parse_tree.get(left))
+                    .map(|left| matches!(left.get_definition(), Definition::JumpIfTrue | Definition::JumpIfFalse | Definition::ElseJump))
+                    .unwrap_or(false);
+                if !left_is_conditional {
+                    Err(CompilerError::new_message("ElseJump definition has no conditional on its left".to_string()))?;
+                }
+            }
+
             handle_parse_node(
                 data,
                 &mut nodes,
